@@ -355,7 +355,7 @@ REFUSALS = [
     (r"allreduce", r"rab1|smp_rsag_rab", POW2, _nonpow2, "run"),
     (r"allgather", r"pair|rhv", POW2, _nonpow2, "run"),
     (r"allgatherv", r"pair", POW2, _nonpow2, "run"),
-    (r"alltoall", r"pair(_light_barrier|_mpi_barrier|_one_barrier)?", POW2, _nonpow2, "run"),
+    (r"alltoall", r"pair(_rma|_light_barrier|_mpi_barrier|_one_barrier)?", POW2, _nonpow2, "run"),
     (r"alltoallv", r"pair(_light_barrier|_mpi_barrier|_one_barrier)?", POW2, _nonpow2, "run"),
     (r"allgather", r"mvapich2_smp", r"can't be used with irregular deployment", _irregular, "run"),
     (r"allgather", r"2dmesh", r"allgather_2dmesh algorithm can't be used with this number of processes", _not_2dmesh, "run"),
